@@ -428,7 +428,9 @@ def tags_of(f):
     op, wp = o.split(" | "), w.split(" | ")
     ot, wt = op[0].split(" "), wp[0].split(" ")
     tg = set()
-    if o == "BLOCKED" or len(ot) < 4:
+    if o.startswith("BLOCKED"):
+        return {"C04"}
+    if len(ot) < 4:
         return {"C04", "C03"}
     if ot[0] != wt[0]:
         tg |= {"C03", "C04"}
@@ -500,6 +502,7 @@ def free_oracles(run):
                           [(e["mono"], e["res"]) for e in foreign])
         on_time = []
         rebases = 0
+        ambiguous = 0
         for i, c in enumerate(trig):
             before = [v for (m, v) in produced if m <= c["mono"] and not (m == c["mono"] and v == c.get("res"))]
             earlier_vals = set(before)
@@ -517,12 +520,14 @@ def free_oracles(run):
                 continue
             # clock-based call: ScheduleJob / ResumeJob in progress, or a misfire re-base
             in_api = any(a["op"] in ("S", "R") and a["mono0"] - TOL <= c["mono"] <= a["mono"] + TOL for a in kapi)
-            if in_api:
-                counts["api_rebases"] += 1
-                continue
             last = before[-1] if before else None
             cands = [v for (m, v) in produced if m <= c["mono"]]
             late = [v for v in cands[-4:] if v < c["prev"] - thr]
+            if in_api:
+                counts["api_rebases"] += 1
+                if late:
+                    ambiguous += 1   # could also be a misfire re-base made by the loop while the call was in progress
+                continue
             if late:
                 rebases += 1
                 continue
@@ -540,7 +545,7 @@ def free_oracles(run):
                                    "(early, duplicated or invented execution)" % (rank, len(avail))})
                 break
         # C04: a misfire is offered to the channel for every re-base (the channel is drained, 4096 deep)
-        if len(misf) != rebases and not any(f["key"] == key for f in f04):
+        if not (rebases <= len(misf) <= rebases + ambiguous) and not any(f.get("key") == key for f in f04):
             f04.append({"key": key, "misfires_received": len(misf), "clock_rebases_by_the_loop": rebases,
                         "why": "MisfiredChan deliveries (%d) differ from the number of misfire re-bases (%d)" % (len(misf), rebases)})
         # C08: after PauseJob / DeleteJob / Clear returned Ok, until the next ScheduleJob / ResumeJob invocation on the key
